@@ -6,7 +6,7 @@
    signs, pixel scales / wavelengths / focal lengths over all rationals (every float is one).
    The grid (N0, N1) is a parameter of [propagate_fft_N]: the code takes round_half_even(1/alpha)
    ([fft_grid]), and [propagate_fft] is [propagate_fft_N] at that grid, so each statement holds for it. *)
-From LV Require Import Model.Fft Proofs.FieldP Proofs.DftP Proofs.FftP Lib.Cis.
+From LV Require Import Model.Fft Proofs.FieldP Proofs.DftP Proofs.FftP Lib.Cis Lib.GRing Lib.Instances.
 
 (* (a) fftshift(fft2(ifftshift x), norm='ortho') is the unitary defining Fourier sum at alpha = 1/N with both
    origins at index floor(N/2) - for even and odd N alike *)
@@ -187,6 +187,29 @@ Theorem C09_scratch_exact_shape_accepted :
 Proof. exact scratch_exact_accepted. Qed.
 Print Assumptions C09_scratch_exact_shape_accepted.
 
+(* scratch_shape for a list of wavelengths (np.max) covers the grid of every listed wavelength: rounding is monotone
+   and 1/alpha grows with the wavelength ... *)
+Theorem C09_scratch_shape_covers_every_wavelength :
+  forall (wls : list Qc) (dx du : Qc * Qc) (z : Qc) (os : Z) (lam : Qc),
+  In lam wls -> (0 < lam)%Qc -> (0 < fst dx * fst du)%Qc -> (0 < snd dx * snd du)%Qc -> (0 < z)%Qc -> 0 < os ->
+  fst (fft_grid dx du z lam os) <= fst (scratch_shape wls dx du z os) /\
+  snd (fft_grid dx du z lam os) <= snd (scratch_shape wls dx du z os).
+Proof. exact scratch_shape_covers. Qed.
+Print Assumptions C09_scratch_shape_covers_every_wavelength.
+
+(* ... so one buffer of exactly scratch_shape(wavelengths, dx, du, z, oversample) serves every listed wavelength *)
+Theorem C09_scratch_shape_of_list_accepted :
+  forall (S : Scalar), is_ring S -> kernel_laws S -> (forall z : Z, @ke S (zq z) = k1) ->
+  forall (sq : Qc -> S) (w : wavefront S) du shape os (buf : arr S) pt (wls : list Qc),
+  let N := fft_grid (wpix w) du (wz w) (wlam w) os in
+  In (wlam w) wls -> (0 < wlam w)%Qc -> (0 < fst (wpix w) * fst du)%Qc -> (0 < snd (wpix w) * snd du)%Qc -> (0 < wz w)%Qc ->
+  nr buf = fst (scratch_shape wls (wpix w) du (wz w) os) -> nc buf = snd (scratch_shape wls (wpix w) du (wz w) os) ->
+  0 < fst N -> 0 < snd N -> 0 < os -> has_tilt w = false -> propagate_ptype (wpt w) = Ok pt ->
+  (forall f, In f (wdata w) -> fgood S f) -> accepted_shape (fst N) (snd N) shape os ->
+  exists out sc, propagate_fft sq w du shape os (Some buf) = Ok (out, sc).
+Proof. exact scratch_list_accepted. Qed.
+Print Assumptions C09_scratch_shape_of_list_accepted.
+
 (* (f) a wavefront with a field carrying tilt is refused, whatever the other arguments *)
 Theorem C09_tilt_refused :
   forall (S : Scalar) (sq : Qc -> S) (N0 N1 : Z) (w : wavefront S) du shape os scratch,
@@ -196,6 +219,32 @@ Proof. exact (fun S sq N0 N1 w du shape os scratch H =>
                tilt_refused S sq N0 N1 w du shape os scratch (proj2 (has_tilt_iff S w) H)). Qed.
 Print Assumptions C09_tilt_refused.
 
+(* sensitivity of (a): the shift order the code had before fix f003478, ifftshift(fft2(fftshift x)), is not the
+   centred transform on an odd grid (1 x 3 delta, cube roots of unity), while the current order is *)
+Theorem C09_old_shift_order_odd_refuted :
+  let sq : Qc -> GRS 3 := fun _ => @k1 (GRS 3) in
+  let x : arr (GRS 3) := mkArr 1 3 (fun _ j => if j =? 0 then @k1 (GRS 3) else @k0 (GRS 3)) in
+  get (fft2c_old sq x) 0 1 <> get (dft2 sq x (/ zq 1)%Qc (/ zq 3)%Qc 1 3 0 0 0 0 true) 0 1
+  /\ get (fft2c sq x) 0 1 = get (dft2 sq x (/ zq 1)%Qc (/ zq 3)%Qc 1 3 0 0 0 0 true) 0 1.
+Proof. exact old_shift_order_odd_refuted. Qed.
+Print Assumptions C09_old_shift_order_odd_refuted.
+
 (* the hypotheses on the scalars are satisfiable: the complex numbers with e t = exp(-2 pi i t) *)
 Example C09_nonvacuous : is_ring CS /\ kernel_laws CS /\ (forall z : Z, @ke CS (zq z) = k1).
 Proof. exact (conj CS_ring (conj CS_kernel CS_ke_Z)). Qed.
+
+(* the hypotheses of (d)/(e) are satisfiable: a 2 x 3 integer field on a 5 x 5 grid, with and without scratch *)
+Example C09_nonvacuous_propagation :
+  let w : wavefront ZS := mkWf [mkField (D2 (mkArr (S := ZS) 2 3 (fun i j => (i + 2 * j + 1 : ZS)))) 0 0 []] (2, 3) 1%Qc (1%Qc, 1%Qc) 1%Qc PPupil in
+  has_tilt w = false /\ propagate_ptype (wpt w) = Ok PImage /\
+  (forall f, In f (wdata w) -> fgood ZS f) /\ accepted_shape 5 5 (Some (2, 2)) 2 /\
+  scratch_ok ZS 5 5 w None /\ scratch_ok ZS 5 5 w (Some (azeros 5 6)).
+Proof.
+  cbv zeta. split; [reflexivity|]. split; [reflexivity|]. split.
+  { intros f [<-|[]]. unfold fgood. cbn. lia. }
+  split; [cbn; lia|]. split; [|cbn; lia].
+  cbn [scratch_ok wshape fst snd]. split; [lia|]. split; [lia|].
+  intros f r c [<-|[]] H. cbn [wshape fst snd] in H. rewrite embed_D2. unfold embedA. cbn [nr nc get].
+  change (2 / 2) with 1 in *. change (3 / 2) with 1 in *.
+  replace (r - 0 + 1) with (r + 1) by ring. replace (c - 0 + 1) with (c + 1) by ring. rewrite H. reflexivity.
+Qed.
